@@ -203,6 +203,9 @@ func Property() runner.Property {
 			// overflowed events: every event buffer holds one event only, so bursts are dropped somewhere on the way;
 			// the next relist must repair the cache (no subscriber: its own buffer would overflow legitimately)
 			burst := []ctl.Mut{{Op: "set", Name: "a", Labels: "l=0", Delay: time.Second}, {Op: "set", Name: "b", Labels: "l=1"}, {Op: "set", Name: "a", Labels: "l=1"}, {Op: "del", Name: "b"}}
+			// the controller is busy in a slow filter while a burst arrives (buffers of one event): whatever is dropped,
+			// nothing may wedge, and the next relist repairs the cache
+			out = append(out, mk("overflow/bufsiz1/slow-filter+burst4", ctl.Cfg{Pre: pre, Hist: burst, Bufsiz: 1, SlowOn: "a", ReadAt: 12 * time.Second}))
 			ov := mk("overflow/bufsiz1/burst4", ctl.Cfg{Pre: pre, Hist: burst, Bufsiz: 1})
 			out = append(out, ov)
 			if tier == "thorough" {
